@@ -1,12 +1,16 @@
 #!/bin/bash
+# Semantics-preserving rewrites (hand-written mutants/m_benign_*.patch and the agent-written
+# mutants/benign-agents/*.diff) against ALL 16 quick checks, four at a time in scratch worktrees.
+# None may alarm. Writes mutants/AUDIT-benign-all.txt.
 cd /verif
-ls mutants/benign-agents/*.diff > /tmp/benign2-list.txt
+ls mutants/m_benign_*.patch mutants/benign-agents/*.diff | grep -v zobrist_seed_changed > /tmp/benign-all-list.txt
 run_slot() {
   SLOT=$1
-  awk -v s=$SLOT 'NR % 4 == s' /tmp/benign2-list.txt | while read P; do
+  awk -v s=$SLOT 'NR % 4 == s' /tmp/benign-all-list.txt | while read P; do
     echo "## $P"
-    AUDIT_SLOT=$SLOT tools/audit.sh $P C01 C02 C03 C04 C05 C07 C08 C09 C10 C11 C12 C13 C15 C16 C17 C18 2>&1
-  done > /tmp/benign2-$SLOT.txt
+    AUDIT_SLOT=$SLOT AUDIT_SKIP_TESTS=${AUDIT_SKIP_TESTS:-0} tools/audit.sh $P C01 C02 C03 C04 C05 C07 C08 C09 C10 C11 C12 C13 C15 C16 C17 C18 2>&1
+  done > /tmp/benign-all-$SLOT.txt
 }
 run_slot 0 & run_slot 1 & run_slot 2 & run_slot 3 & wait
-echo DONE > /tmp/benign2-done; (for s in 0 1 2 3; do cat /tmp/benign2-$s.txt; done) > mutants/AUDIT-benign-agents.txt
+(for s in 0 1 2 3; do cat /tmp/benign-all-$s.txt; done) > mutants/AUDIT-benign-all.txt
+echo "runs: $(grep -c 'exit=' mutants/AUDIT-benign-all.txt)  silent: $(grep -c 'exit=0' mutants/AUDIT-benign-all.txt)  alarms: $(grep -c 'exit=1' mutants/AUDIT-benign-all.txt)  harness errors: $(grep -c 'exit=2' mutants/AUDIT-benign-all.txt)" >> mutants/AUDIT-benign-all.txt
